@@ -133,8 +133,10 @@ def structured_rotation(x: jnp.ndarray,
   d = 2**math.ceil(math.log2(x_flat.size))
   w = jnp.pad(x_flat, (0, d - x.size))
   rademacher = jax.random.rademacher(rng, w.shape)
+  # An explicit integer dtype: the shape of a scalar is (), which would
+  # otherwise become an empty float array that cannot be used as a size.
   return walsh_hadamard_transform(w * rademacher) / jnp.sqrt(d), jnp.array(
-      x.shape)
+      x.shape, dtype=jnp.int32)
 
 
 def inverse_structured_rotation(x: jnp.ndarray, rng: PRNGKey,
